@@ -20,7 +20,7 @@ META = {
              "'at least a main-lobe width from 0 and Nyquist'; (ii) full product of analysis configurations x scale factors; "
              "non-trivial: (i) every case (A^2/2 > 0), (ii) bins whose density exceeds 1e6x its rounding tolerance"),
     "exhaustive": True,
-    "bounds": {"quick": "(i) L=16..128 every integer; 4 positions; 4 phases; A in {1e-3,1,1e3}; psll {60,100,150,200}; fs {1,1000}; order {-1,0}; N in {L,3L+1}. (ii) N in {24,64}, schedulers ltf+vectorized_ltf, 3 windows, 4 orders, c in {-3,.5,1e3,1e-3} on x, y, both; a in {.5,4,1024} exact and {3,1000} when the plan is unchanged",
+    "bounds": {"quick": "(i) L=16..128 every integer; 4 positions; 4 phases; A in {1e-3,1,1e3}; psll {60,100,150,200}; fs {1,1000}; order {-1,0}; N in {L,3L+1}. (ii) N in {24,64}, schedulers ltf+vectorized_ltf, 3 windows, 4 orders, c in {-3,.5,1e3,1e-3,1e-12,1e-30,1e12} on x, y, both; a in {.5,4,1024} exact and {3,1000} when the plan is unchanged",
                "thorough": "(i) L=16..512 every integer + {1024,4096}"},
     "assumptions": ["(i) tolerance 2r+r^2 with r = 10^(-(psll-1)/20) (order -1) or 3r (order 0): the negative-frequency image and the removed mean seen through a side lobe >= psll-1 dB down, plus the rounding bound of the recurrence"],
 }
@@ -83,6 +83,16 @@ def _sin_cases(cases):
             r = an.compute_single_bin(f0, L=L)
             ps = float(r.ps[0])
             enbw = float(r.ENBW[0])
+            # the same bin requested through a resolution that is not fs/integer but rounds to the same L
+            fres_req = fs / (L + 0.3)
+            r2 = an.compute_single_bin(f0, fres=fres_req)
+            if int(r2.L[0]) == L:
+                ps2, enbw2 = float(r2.ps[0]), float(r2.ENBW[0])
+                if not (abs(ps2 - ps) <= 1e-12 * abs(ps) and abs(enbw2 - enbw) <= 1e-12 * enbw):
+                    key = "sin/fres-request"
+                    if key not in seen:
+                        seen.add(key)
+                        out["failures"].append(fw.fail(key, f"{key}: single bin at the same f and L requested via fres={fres_req!r} gives ps={ps2!r}, ENBW={enbw2!r} but via L={L}: ps={ps!r}, ENBW={enbw!r} :: {c}", c))
         except Exception as e:  # noqa: BLE001
             out["evals"] += 1
             out["failures"].append(fw.fail(f"sin/raises/order={order}", f"sinusoid case {c} raised {type(e).__name__}: {e}", c))
@@ -141,7 +151,7 @@ def _scale(shard):
         pf = ana.plan_fields(base)
         nf = len(pf["f"])
         case0 = {"N": N, "sched": sch, "win": win, "seed": seed, "only": {"order": order, "backend": backend, "rx": rx}}
-        for c, who in itertools.product((-3.0, 0.5, 1e3, 1e-3), ("x", "y", "both")):
+        for c, who in itertools.product((-3.0, 0.5, 1e3, 1e-3, 1e-12, 1e-30, 1e12), ("x", "y", "both")):
             xs = x * c if who in ("x", "both") else x
             ys = y * c if who in ("y", "both") else y
             r = ana.make_analyzer(np.stack([xs, ys]), fs, **kw).compute()
